@@ -449,7 +449,15 @@ class AsyncHTTP2Connection(AsyncConnectionInterface):
             self._connection_error = True
             raise exc
 
-        events: list[h2.events.Event] = self._h2_state.receive_data(data)
+        try:
+            events: list[h2.events.Event] = self._h2_state.receive_data(data)
+        except h2.exceptions.ProtocolError as exc:
+            # Anything the h2 state machine rejects while parsing incoming
+            # bytes is a protocol violation by the remote peer. As with network
+            # errors, it is saved so that every pending stream fails with it.
+            self._read_exception = RemoteProtocolError(exc)
+            self._connection_error = True
+            raise self._read_exception from exc
 
         return events
 
